@@ -16,6 +16,7 @@
 // The driver never judges: it only stays inside the property's quantifier
 // (steering, computed from the same public queries) and encodes observations.
 #include "tracer.h"
+#include "param_audit.h"
 
 #include <Bpp/App/ApplicationTools.h>
 #include <Bpp/Exceptions.h>
@@ -990,6 +991,7 @@ static void installAltStack()
 
 int main(int argc, char** argv)
 {
+  vt::installParamAudit(); // C01: audit of every Parameter of the process when VERIF_PARAM_AUDIT=<file> is set
   installCrashHandlers();
   installAltStack();
   bpp::ApplicationTools::warning = nullptr;
